@@ -13,6 +13,20 @@ NOTE = ("Trusted base: Lean 4.33.0 kernel with axioms propext/Classical.choice/Q
 
 # id -> (category, technique, text, design_ref, extra note)
 CLAIMS = {
+    'C01': ('proof', 'Lean 4 refinement proof of the radix tree to a coverage semantics (mutual structural induction over the nested node type, tree invariant, signed port coding) + differential tie with near-miss probes',
+            "Theorems (Props/C01.lean, Proofs/Tree.lean, Proofs/Ports.lean): C01_tree - for every finite list of well-formed patterns in every order and multiplicity and every origin, the tree built by successive Insert "
+            "contains the origin iff some listed pattern denotes it (Spec.denotes: same scheme; host byte-equal, or ending in `.`+base with at least one more byte in front for `*.`; port equal or arbitrary for `:*`); C01_order - the verdict "
+            "depends only on the set of patterns; C01_invariant - sorted edges/schemes/ports and label = first byte of each child's suffix hold for every tree the code can build; C01_parsed - every pattern ParsePattern accepts is well-formed; "
+            "C01_config / C01_allow_all / C01_request - for an accepted configuration the raw Origin value is treated as allowed iff `*` is listed or it parses and a listed pattern denotes it. The core is insert_spec: Insert adds exactly the coverage "
+            "of the new entry (descend, subsumption short-cut, new leaf, split into child'/grandchildren), including the Go code's peculiar duplicate test in node.add. Tie: tree suite (ParsePattern+Insert / Parse+Contains on pattern lists sharing "
+            "non-boundary suffixes with probes derived from every pattern), lex suite (Parse), decision bits of the serve suite.",
+            '6/C01', "C01_parsed/C01_config/C01_request assume that the IPv6 oracle never accepts a literal starting with `*` (true of netip.ParseAddr). C01_browser (every serialisable origin is parsed by origins.Parse) is not proved; bracketed non-IP hosts are matched after bracket stripping (DESIGN 8.9)."),
+    'C02': ('proof', 'Lean 4 theorems (partial: server-side verdict of the preflight pipeline in both debug modes) + strict differential tie of whole responses',
+            "PARTIAL. Theorems C02_preflight_verdict (debug off: the middleware answers a preflight with the success status exactly when the four documented conditions hold - origin parses and is allowed or allow-all without credentials; "
+            "private-network access not asked or enabled; method safelisted, `*` or listed; no ACRH field, `*`, or a non-empty discrete list approving the lines), C02_debug_steps (debug on: same origin/PNA/method conditions; header step succeeds iff `*` or a discrete list is configured) "
+            "and steps_ok_iff (Props/C02.lean), for every decision oracle (hence, with C01 and C14, in terms of pattern denotations and Spec.approved). NOT proved: the browser side (CORS-preflight fetch step 7 and the CORS check applied to the emitted Allow-* values) "
+            "and therefore the end-to-end equality with the configuration's meaning; that part rests on the serve suite (full strict comparison of status, every header and the decision bits, both debug modes, ACRH perturbations).",
+            '6/C02', 'PARTIAL: no Lean model of the browser algorithm yet; the reading of the Fetch standard is therefore not part of any theorem.'),
     'C03': ('proof', 'Lean 4 theorem (case analysis over the four dispatch paths, buffer invariant for the preflight pipeline) + differential tie',
             "Theorems C03 / C03_model / C03_accepted (Props/C03.lean): for every decision oracle, every accepted (well-formed) configuration, "
             "both debug modes, every request and pre-set headers, the model's response satisfies every clause of C03Spec (ACAO is `*` only for "
